@@ -60,7 +60,9 @@ _T1_SPLIT_Q.append(H('n_t1s', 'H_t1_split_struct_link', 'same with a next-layer 
                       T15 + '; entry 8 is a link with a symbolic slice', data=16, timeout=900))
 _T1_SPLIT_T = [H('n_t1s', 'H_t1_split_probe', 'same step: real get of a symbolic probe key on the split tree == reference map (the new key may sit exactly at the split point)', T15, tier='thorough', data=16, timeout=3400),
                H('n_t1s', 'H_t1_split_probe_scr', 'same with scrambled slots', T15, tier='thorough', data=16, timeout=3400)]
-_T1_BIG = _T1_SPLIT_Q + _T1_SPLIT_T
+# the probe variants of the split step (real get of a symbolic probe key on the split tree) did not finish in 3400 s and are not
+# registered (they stay in harness/n_t1.cpp): _T1_SPLIT_T
+_T1_BIG = _T1_SPLIT_Q
 
 SCANREQ = 'request fully symbolic: l_key/r_key 0..10 bytes, all 9 endpoint-kind pairs, max_size 0..entries+1, both directions (incl. every ERR_BAD_USAGE combination)'
 KEYB2 = '; key bytes: the first 2 bytes of every 8-byte slice symbolic (all lengths 0..8 / prefixes / 0x00 padding cases), the rest 0x00'
@@ -85,7 +87,6 @@ _C05_SCAN_Q = [
 ]
 _C05_SCAN_T = [
     H('n_scan', 'H_c05_scan_put_t1_n2', 'scan + insert on T1(2)', 'T1(2); ' + SCANREQ + KEYB2, data=1, tier='thorough', timeout=3400),
-    H('n_scan3', 'H_c05_scan_put_t3_11', 'scan + insert across a node boundary', 'T3(2;1,1); ' + SCANREQ + KEYB2, data=2, tier='thorough', timeout=3400),
 ]
 
 I2 = ('all schedules with at most TWO context switches at hook granularity (every atomic load/store of shared memory is a hook): A runs up to a hook, '
@@ -104,9 +105,11 @@ _C01_PUT = [
 ]
 _C01_I = [
     H('i_point', 'H_i_get_remove_a0', 'get(k0) pre-empted at any hook, remove(k1) runs there completely (same or different key): results linearizable, an OK get has a non-null value with exactly the stored bytes, quiescent state well-formed, no lock left',
-      'T1(2); A=get, B=remove; ' + I2, data=4, sync=2, timeout=3000, tier='thorough', windows=dict(funcs=_GET_FUNCS, visits=(1, 2))),
+      'T1(2); A=get, B=remove; hook sites of the get body and of find_border, visits 1 and 2 (the sites inside the entry loop of get_lv_of exceed 24 GB per query and are not registered); ' + I2,
+      data=4, sync=2, timeout=3000, tier='thorough', windows=dict(funcs=['op_getEi$', 'L11find_border'], visits=(1, 2))),
     H('i_point', 'H_i_get_remove_a1', 'remove(k1) pre-empted at any hook, get(k0) runs there completely: the reader sees the old or the new state at every intermediate point of the writer',
-      'T1(2); A=remove, B=get; ' + I2, data=4, sync=2, timeout=3000, tier='thorough', windows=dict(funcs=_REMOVE_FUNCS, visits=(1,))),
+      'T1(2); A=remove, B=get; hook sites of border_node::delete_at (slot clear / permutation update / value retirement), first visit; ' + I2,
+      data=4, sync=2, timeout=3000, tier='thorough', windows=dict(funcs=['border_node9delete_atE'], visits=(1,))),
 ]
 
 NAMES = 'storage names: all byte strings of 0..8 bytes (binary, empty, prefixes of each other), first 2 bytes of the slice symbolic'
@@ -114,8 +117,7 @@ _C13 = [
     H('n_storage', 'H_c13_find_get_n1', 'find_storage + data get BY NAME on a directory with one storage: OK/instance iff the name exists, unknown name => WARN_STORAGE_NOT_EXIST, only that storage\'s keys visible', 'directory T1(1), data tree T1(1); ' + NAMES, data=2),
     H('n_storage', 'H_c13_find_get_n2', 'same with two storages: a key stored under one name is not visible under the other', 'directory T1(2), two data trees T1(1); ' + NAMES, data=2, timeout=900),
     H('n_storage', 'H_c13_list_n1', 'list_storages: every name, ascending, with its instance (std::vector growth from the IR)', 'directory T1(1); ' + NAMES, data=2, timeout=900),
-    H('n_storage', 'H_c13_list_n2', 'list_storages with two storages', 'directory T1(2); ' + NAMES, data=2, tier='thorough', timeout=3400),
-    H('n_storage', 'H_c13_put_isolated_n1', 'data put BY NAME: lands in the named storage only; unknown name => WARN_STORAGE_NOT_EXIST and nothing changes; the directory is untouched', 'directory T1(1), data tree T1(1); ' + NAMES, data=2, tier='thorough', timeout=3400),
+    # H_c13_list_n2 (two storages) and H_c13_put_isolated_n1 (data put by name) exceed 24 GB / the budget and are not registered
 ]
 
 REGISTRY = {
@@ -202,7 +204,7 @@ LEVEL_TEXT = {
                      'solver queries) the WHOLE other operation (B) is called from inside the hook, then A continues with its optimistic retries enabled. Keys, values and node contents are symbolic. '
                      'Asserted: results equal one of the serial orders, an OK get returns a non-null pointer to exactly the stored bytes, the quiescent node is well-formed, no lock is left, nobody waits. '
                      'The solver schedule is replayed on the g++ build (B is called inside the same dynamic hook). This found the null-value defect of get (fixed, known_findings.json).',
-                note='Bounds: pair get||remove on T1(2) (quick: the hook sites of the get body; thorough: all sites of get and, with roles swapped, of remove); at most two context switches, i.e. B is never suspended: '
+                note='Bounds: pair get||remove on T1(2) (quick: the hook sites of the get body, first visit; thorough: get body + find_border sites, two visits, and - roles swapped - the sites of border_node::delete_at with get as the atomic side; the sites inside the entry loop of get_lv_of cost > 24 GB per query and are not covered); at most two context switches, i.e. B is never suspended: '
                      'a schedule in which B would have to wait for A or to retry on A\'s transient state needs a third switch and is outside the claim, as are put (insert/overwrite/split) pairs, '
                      'more than two operations, interior nodes and layers; <= 1 optimistic retry of A per path (an assertion reports if more are needed); SC at hook granularity. '
                      'The free-schedule sequentialization (coroutines, CTX contexts) of the same pair does not finish (DESIGN.md 11). The serial orders are the C02 harnesses.',
@@ -216,14 +218,14 @@ LEVEL_TEXT = {
                      'between layers is outside this check. WARN_STORAGE_NOT_EXIST by name is decided under C13. Found and fixed: INF did not ignore l_key (known_findings.json).',
                 ref='DESIGN.md 11/C03'),
     'C13': dict(text='The directory of storages is built directly (a root border whose values are tree_instance objects, as create_storage leaves it) with symbolic names; then one real call BY NAME: '
-                     'find_storage, data get, data put, list_storages. Asserted: lookup succeeds with the right instance iff the name exists, WARN_STORAGE_NOT_EXIST otherwise; a key of one storage is not '
-                     'visible under another name; a put by name changes only the named storage; list returns every name ascending with its instance.',
-                note='Bounds: 1-2 storages, names 0..8 bytes, data trees T1(1). create_storage / delete_storage (enter + put/remove of a tree_instance + destroy) and the concurrent create/create, '
+                     'find_storage, data get, list_storages. Asserted: lookup succeeds with the right instance iff the name exists, WARN_STORAGE_NOT_EXIST otherwise; a key of one storage is not '
+                     'visible under another name; list returns every name ascending with its instance.',
+                note='Bounds: 1-2 storages for lookup, 1 storage for list; names 0..8 bytes, data trees T1(1). Data PUT by name (harness exists, exceeds the budget), create_storage / delete_storage (enter + put/remove of a tree_instance + destroy) and the concurrent create/create, '
                      'delete/delete half are NOT decided here: the tree operations they are built from are decided under C02, session acquisition under C14.', ref='DESIGN.md 11/C13'),
     'C05': dict(text='(a) get: the real get (miss, with checked_version) followed by the real insert of the missed key, from an arbitrary valid state of T1(1), T1(3) and the empty deleted root: the pair is non-null and stale afterwards. '
                      '(b) scan: the real scan with node_version_vec under a fully symbolic request (interval, max_size, direction), then the real insert of a symbolic ABSENT key of the covered interval '
                      '(for a size-limited read: between its start and the last entry produced): some collected (version, node) pair is stale; the set is never empty for an existing storage (also on the empty deleted root).',
-                note='Bounds: T1(1) quick, T1(2) and T3(2;1,1) thorough for (b); keys 0..8 bytes. NOT decided: reads that end on / inside a next-layer link (two-layer shapes do not finish, see C03) - the pinned tree had a '
+                note='Bounds: T1(1) quick, T1(2) thorough for (b) (the T3 variant exceeds 24 GB and is not registered); keys 0..8 bytes. NOT decided: reads that end on / inside a next-layer link (two-layer shapes do not finish, see C03) - the pinned tree had a '
                      'defect exactly there (F2: empty / incomplete set), shown on the real build through the public API and fixed (known_findings.json), which this check cannot see; '
                      'and the iscan part (C10 is not decidable with this pipeline).', ref='DESIGN.md 4/C05, 11'),
     'C11': dict(text='Release is decided with a ghost allocator (every operator new/delete variant tracked: live count, sized/aligned delete match, double free): fin() draining retired objects also with a session left open, and per-operation accounting of put/remove (nothing freed in place, failed unique insert leaves nothing behind).',
@@ -255,7 +257,7 @@ LEVEL_TEXT = {
                      '(contents, operation key/value/flags and a probe key symbolic; topology, entry counts and slot assignment concrete per query) and the '
                      'status, the representation invariant of the post-state and the real get of the probe key are compared with the reference ordered map. '
                      'Because the pre-state is any valid state of the shape, one discharged step covers operation histories of any length that stay inside the shape family.',
-                note='Bounds: shapes T0, T0d, T1(1..4) quick, T1(14), T1(15)+split thorough; keys of 0..8 bytes (one layer); values 1 byte. Version counters concrete '
+                note='Bounds: shapes T0, T0d, T1(1..4), T1(15)+split (structure, separator, links, C12 reporting; also with a next-layer link as 9th entry); keys of 0..8 bytes (one layer); values 1 byte. The real get of a probe key on the split tree is not decided (no verdict in 3400 s). Version counters concrete '
                      '(all counter values are covered at kind K, C17). Trusted: clang++-14, ll2c (cross-validated on solver witnesses against the g++ build), CBMC+kissat.',
                 ref='DESIGN.md 4/C02'),
     'C08': dict(text='RI(post) - sortedness/uniqueness of entries, separator bounds, parent/child and prev/next consistency, no lock or dirty bit left, no unlinked '
